@@ -195,7 +195,8 @@ def tlc_ok(ctx, r, what):
 def tlc_must_fail(ctx, r, what, expect=None):
     """Negative control: the run must report a violation (non-vacuity of the property/trace spec)."""
     bad = r.violation or r.postcondition_false or r.deadlock
-    ok = bool(bad) and not r.error and (expect is None or r.violation == expect or expect == "postcondition" and r.postcondition_false)
+    exps = expect if isinstance(expect, (tuple, list, set)) else (expect,)
+    ok = bool(bad) and not r.error and (expect is None or r.violation in exps or "postcondition" in exps and r.postcondition_false)
     ctx.cov["controls"].append({"control": what, "detected": bool(ok)})
     if not ok:
         raise Broken("negative control not detected: %s (got %s)\n%s" % (what, r.violation or r.error, r.out[-2000:]))
